@@ -101,7 +101,7 @@ def run(pid, tier, seed, replay=None):
         import rs2v
         gp = rs2v.regenerate()
         broken += ["rs2v: " + p for p in gp]
-    obligations, discharged, aprobs, alog = C.audit(pid)
+    obligations, discharged, aprobs, alog = C.audit(pid, getattr(mod, 'PROPS_FILES', None))
     broken += ["proof: " + p for p in aprobs]
     ok, lg = C.build_driver()
     if not ok:
